@@ -110,4 +110,18 @@ theorem tmCode_ok_iff (dest timer t res : Nat) :
 /-- non-vacuity: a reporting run within the hypothesis (`*timer = -1`) -/
 example : cellI64 (2^64 - 1) ≠ MAX_TIME_T_STR ∧ tmCode 100 8 (2^64 - 1) 200 = (EOVERFLOW, some ESLEMIN) := by decide
 
+/-- gmtime_s: `tmConv_meaning_partial` under its own name -/
+theorem gmtime_s_meaning_partial (timer dest res : Nat) (st : St) (r : Nat) (st' : St)
+    (ht : cellI64 (st.data timer) ≠ MAX_TIME_T_STR) (he : exec (gmtime_s timer dest res) st = .ok (r, st')) :
+    r = (tmCode dest timer (st.data timer) res).1 ∧
+      st'.events = st.events ++ ((tmCode dest timer (st.data timer) res).2).toList.map (Event.handler .str) :=
+  tmConv_meaning_partial timer dest res st r st' ht he
+
+/-- localtime_s: the same code around `localtime_r` -/
+theorem localtime_s_meaning_partial (timer dest res : Nat) (st : St) (r : Nat) (st' : St)
+    (ht : cellI64 (st.data timer) ≠ MAX_TIME_T_STR) (he : exec (localtime_s timer dest res) st = .ok (r, st')) :
+    r = (tmCode dest timer (st.data timer) res).1 ∧
+      st'.events = st.events ++ ((tmCode dest timer (st.data timer) res).2).toList.map (Event.handler .str) :=
+  tmConv_meaning_partial timer dest res st r st' ht he
+
 end SafeC.Props.C05Meaning
